@@ -16,6 +16,7 @@ CONSTANTS
   SampleSeed = {seed}
 INVARIANT AllPropertiesHold
 INVARIANT AllValid
+INVARIANT RouteIndependent
 INVARIANT Export
 CHECK_DEADLOCK FALSE
 """
